@@ -98,7 +98,7 @@ var findings = []finding{
 		witness: []string{"SHOW VARIABLES WHERE @b"}},
 	{id: "C10-interval-placeholder", frames: []string{"expression.(*Interval).Eval"}, region: re(`\binterval\b`),
 		witness: []string{"SELECT INTERVAL 1 DAY"}},
-	{id: "C10-fulltext-drop-pk-column", frames: []string{"fulltext.GetKeyColumns"}, region: re("\\balter\\b.*\\bdrop\\s+(column\\s+)?`?(i|i2|pk|pk1|pk2|x|u|a|id)`?(\\W|$)"),
+	{id: "C10-fulltext-drop-pk-column", frames: []string{"fulltext.GetKeyColumns", "memory.TableData.partition"}, region: re("\\balter\\b.*\\bdrop\\s+(column\\s+)?`?(i|i2|pk|pk1|pk2|x|u|a|id)`?(\\W|$)"),
 		witness: []string{"ALTER TABLE mytable DROP i"}},
 	{id: "C10-insert-ignore-binary", frames: []string{"rowexec.convertDataAndWarn"}, region: re(`\bignore\b`),
 		witness: []string{"INSERT IGNORE INTO othertable VALUES (CAST('abcdefghijklmnopqrstuvwxyz' AS BINARY), 9)"}},
